@@ -108,7 +108,37 @@ var strKit = kit[string]{
 	},
 }
 
-func Run(c Case) pbt.Outcome { return runElem(c) }
+func Run(c Case) pbt.Outcome {
+	keptStrings = keptStrings[:0]
+	out := runElem(c)
+	if out.Violation == "" {
+		if msg := keptIntact(); msg != "" {
+			return pbt.Fail("%s", msg)
+		}
+	}
+	return out
+}
+
+// keptStrings: every String() result of the case, kept by the caller, with a private copy made when it was
+// returned. A string is immutable: what String returned must still read the same after any later call.
+type keptString struct{ got, copied, what string }
+
+var keptStrings []keptString
+
+func keepString(what, got string) {
+	if len(keptStrings) < 64 {
+		keptStrings = append(keptStrings, keptString{got, strings.Clone(got), what})
+	}
+}
+
+func keptIntact() string {
+	for i, k := range keptStrings {
+		if k.got != k.copied {
+			return fmt.Sprintf("the string returned by String() call number %d of the case (%s) changed after later calls: it now reads %.80q, it was returned as %.80q", i+1, k.what, k.got, k.copied)
+		}
+	}
+	return ""
+}
 
 func members(m uint32) []int {
 	r := make([]int, 0, bits.OnesCount32(m))
@@ -218,6 +248,7 @@ func (r runner[T]) at(code int) (T, uint32) {
 // equal-comparing values with different renderings (0.0 and -0.0) may appear as either.
 func (r runner[T]) checkString(what string, s sets.Set[T], m uint32) string {
 	got := s.String()
+	keepString(what, got)
 	alts := r.wantStrings(m)
 	if len(got) >= 2 && got[0] == '{' && got[len(got)-1] == '}' && matchBody(got[1:len(got)-1], alts) {
 		return ""
